@@ -103,14 +103,23 @@ def run(ctx):
     ctx.extra["negative_control_write_after_children_violates"] = neg["inv"]
     if neg["inv"] != "ViewIsNearestWrite":
         raise vlib.Broken("negative control: writing a block that has children should violate ViewIsNearestWrite")
+    # the block universe contains twins (same parent, height, miner, time, roots, ...; only the content differs): a tree
+    # that recognised the new stable block by those attributes instead of its hash would break exact pruning
+    neg = ctx.tlc("MCForkView", "MCForkView_negtwin.cfg", timeout=300, expect_ok=False)
+    ctx.extra["negative_control_identity_by_header_attributes_violates"] = neg["inv"]
+    if neg["inv"] != "PruneExact":
+        raise vlib.Broken("negative control: identifying a block by its header attributes should violate PruneExact (twins in the universe)")
     #          cfg                    adapter          hard reset
-    graphs = [("MCForkView_quick.cfg", "forkview", False), ("MCForkView_tree.cfg", "forkview-deep", False)]
+    graphs = [("MCForkView_quick.cfg", "forkview", False), ("MCForkView_tree.cfg", "forkview-deep", False),
+              ("MCForkView_twin.cfg", "forkview", False), ("MCForkView_twin4.cfg", "forkview-deep", False)]
     if not ctx.quick():
         graphs = [("MCForkView_quick.cfg", "forkview", True), ("MCForkView_quick.cfg", "forkview-deep", False),
                   ("MCForkView_tree.cfg", "forkview-deep", True), ("MCForkView_tree.cfg", "forkview", False),
                   ("MCForkView_t1.cfg", "forkview", False), ("MCForkView_t2.cfg", "forkview", False),
                   ("MCForkView_t3.cfg", "forkview-deep", False), ("MCForkView_t4.cfg", "forkview", False),
-                  ("MCForkView_t5.cfg", "forkview-deep", False)]
+                  ("MCForkView_t5.cfg", "forkview-deep", False),
+                  ("MCForkView_twin.cfg", "forkview", True), ("MCForkView_twin4.cfg", "forkview-deep", False),
+                  ("MCForkView_t6.cfg", "forkview", False)]
     dots = {}
     replays = []   # (name, files, summary)
     samples = []
